@@ -90,19 +90,35 @@ def strictOK (w : Spec.Ts24501.Wire) (sm : Spec.Ts24501.SMsg) : Bool :=
     | some ow => Spec.Ts24501.valLenOK ow val.length
     | none => false
 
-/-- first element (wire order) that the implementation decodes differently from the standard's reading -/
+/-- first element (wire order) that the implementation decodes differently from the standard's reading: the shortest
+    prefix of the abstract message (imperative part, then one optional IE after the other) whose standard encoding the
+    model decodes to something else than `fromSpec` of that prefix (or fails on) names the element -/
 def decKeys (L : Layout) (sm : Spec.Ts24501.SMsg) (expected got : Msg) : List String :=
   if expected == got then [] else
-  let mand := (L.encMand.map (·.1)).find? fun i => expected[i]? != got[i]?
-  match mand with
-  | some i => [fieldName L i]
-  | none =>
-    let bad := sm.opt.find? fun (iei, _) =>
-      match (L.encOpt.zip L.cases).find? (fun p => p.2.iei == iei) with
-      | some p => expected[p.1.1]? != got[p.1.1]?
-      | none => true
+  match wireOf L with
+  | none => ["table"]
+  | some w =>
+    let bad := (List.range (sm.opt.length + 1)).find? fun k =>
+      let smk : Spec.Ts24501.SMsg := ⟨sm.mand, sm.opt.take k⟩
+      match Spec.Ts24501.encode w smk with
+      | none => false
+      | some bs =>
+        match decode L bs with
+        | .ok m => m != fromSpec L smk
+        | .error _ => true
     match bad with
-    | some (iei, _) => ["0x" ++ hex2 iei]
+    | some 0 =>
+      let exp0 := fromSpec L ⟨sm.mand, []⟩
+      let got0 := match (Spec.Ts24501.encode w ⟨sm.mand, []⟩).map (decode L) with
+        | some (.ok m) => m
+        | _ => []
+      match (L.encMand.map (·.1)).find? fun i => exp0[i]? != got0[i]? with
+      | some i => [fieldName L i]
+      | none => ["mandatory"]
+    | some (k + 1) =>
+      match sm.opt[k]? with
+      | some (iei, _) => ["0x" ++ hex2 iei]
+      | none => ["extra"]
     | none => ["extra"]
 
 def specParse (L : Layout) (bs : Bytes) : Option (Spec.Ts24501.SMsg × Msg) :=
@@ -249,9 +265,79 @@ def nmPDec : Handler
     | none => badOp
   | _ => badOp
 
+/-! ### `nsgen <Msg> <seed>`: a message built by the standard's encoder from a pseudo-random abstract message
+    (random subset of the table's optional IEs in random order, value lengths within the table's bounds).
+    The check feeds these bytes to the real decoder (`nmdec`), closing the direction "independent encoder → codec". -/
+
+def lcg (s : Nat) : Nat := (s * 6364136223846793005 + 1442695040888963407) % 18446744073709551616
+
+def rndBytes : Nat → Nat → Bytes × Nat
+  | 0, s => ([], s)
+  | n + 1, s =>
+    let s' := lcg s
+    let (r, s'') := rndBytes n s'
+    (UInt8.ofNat (s' / 4294967296) :: r, s'')
+
+def pickLen (mn : Nat) (mx : Option Nat) (s : Nat) : Nat :=
+  let r := s / 4294967296
+  match mx with
+  | some m => if m ≤ mn then mn else
+      let span := m - mn
+      if r % 7 == 0 then m else if r % 7 == 1 then mn else mn + r / 8 % (min span 40 + 1)
+  | none => if r % 7 == 1 then mn else mn + r / 8 % 41
+
+def shuffle (l : List α) (s : Nat) : List α × Nat :=
+  l.foldl (fun (acc : List α × Nat) x =>
+    let s' := lcg acc.2
+    let k := (s' / 4294967296) % (acc.1.length + 1)
+    (acc.1.take k ++ [x] ++ acc.1.drop k, s')) ([], s)
+
+def nsGen : Handler
+  | [name, seed] =>
+    match Spec.Ts24501.tableByName name, seed.toNat? with
+    | some T, some sd =>
+      match T.wire with
+      | none => badOp
+      | some w =>
+        let s0 := lcg (sd + 977)
+        -- imperative part
+        let (mand, s1) := w.mand.foldl (fun (acc : List Bytes × Nat) mw =>
+          let s := lcg acc.2
+          let n := match mw with
+            | .v n => n
+            | .vRest mn => pickLen mn none s
+            | .lv (some n) | .lve (some n) => n
+            | .lv none => pickLen 0 (some 40) s
+            | .lve none => pickLen 0 (some 300) s
+          let (b, s') := rndBytes n s
+          (acc.1 ++ [b], s')) ([], s0)
+        -- header octets: EPD and message type
+        let epd : UInt8 := UInt8.ofNat (if T.gsm then Spec.Ts24501.epd5GSM else Spec.Ts24501.epd5GMM)
+        let mand := mand.set 0 [epd]
+        let mand := match T.msgType with
+          | some t => mand.set (if T.gsm then 3 else 2) [UInt8.ofNat t]
+          | none => mand
+        -- optional IEs
+        let (chosen, s2) := w.opt.foldl (fun (acc : List (Nat × Bytes) × Nat) ow =>
+          let s := lcg acc.2
+          if (s / 4294967296) % 2 == 0 then (acc.1, s) else
+          match ow.kind with
+          | .half => (acc.1 ++ [(ow.iei, [UInt8.ofNat ((s / 65536) % 16)])], s)
+          | _ =>
+            let n := pickLen ow.minVal ow.maxVal (lcg s)
+            let n := if n > 3000 then ow.minVal + n % 64 else n
+            let (b, s') := rndBytes n (lcg (lcg s))
+            (acc.1 ++ [(ow.iei, b)], s')) ([], s1)
+        let (opts, _) := if sd % 3 == 0 then (chosen, s2) else shuffle chosen s2
+        match Spec.Ts24501.encode w ⟨mand, opts⟩ with
+        | some bs => ("ok " ++ toHex bs, "n/a")
+        | none => ("err", "n/a")
+    | _, _ => badOp
+  | _ => badOp
+
 def nasCodecHandlers : List (String × Handler) := [
   ("nmenc", nmEnc), ("nmdec", nmDec), ("nmrt", nmRt), ("nmre", nmRe), ("nmperm", nmPerm),
-  ("nmpenc", nmPEnc), ("nmpdec", nmPDec)
+  ("nmpenc", nmPEnc), ("nmpdec", nmPDec), ("nsgen", nsGen)
 ]
 
 end Driver
